@@ -46,6 +46,12 @@ def main():
         print('missing deliverables', os.listdir(sd) if os.path.isdir(sd) else sd)
         return 2
     props = [p for p in (args.props.split(',') if args.props else [pid]) if p]
+    if not args.props and os.path.exists(os.path.join(sd, 'meta.json')):
+        # a stored seed is re-evaluated with the checks that are recorded as catching it (a sibling check for some)
+        try:
+            props = list(json.load(open(os.path.join(sd, 'meta.json'))).get('caught_by') or []) or props
+        except Exception:
+            pass
     tmp = tempfile.mkdtemp(prefix='gvseed-')
     meta = {'property': pid, 'source': 'independent sub-agent given only the property text and a scratch worktree'}
     try:
